@@ -55,7 +55,7 @@ EXTENDS Integers, Sequences, FiniteSets, TLC
 CONSTANTS NS,               \* number of sessions
           NO,               \* number of rows of T
           MaxOps,           \* program length (C / X not counted)
-          KA, KB,           \* kinds of the attributes a and b
+          KA, KB,           \* sets of kinds the attributes a and b may have (one combination is chosen in Init)
           Modes1, ModesN,   \* modes of session 1 / of the other sessions: subsets of {"opt", "imm", "ser"}:
                             \* db_session(), (immediate=True), (serializable=True | optimistic=False)
           OpSet1, OpSetN,   \* operation alphabet of session 1 / of the other sessions:
@@ -67,18 +67,10 @@ CONSTANTS NS,               \* number of sessions
 Sessions == 1..NS
 Objs     == 1..NO
 Attrs    == {"a", "b"}
-Kind     == [a |-> KA, b |-> KB]
 Unseen   == -1
 
-Tracked(x) == Kind[x] # "volatile"            \* has a bit in _bits_except_volatile_
-Optim(x)   == Kind[x] \in {"opt", "link"}     \* appears in optimistic criteria when read
-LinkAttrs  == {x \in Attrs : Kind[x] = "link"}
-HasLink    == LinkAttrs # {}
-LinkA      == CHOOSE x \in LinkAttrs : TRUE
-
-InitRow == [o \in Objs |-> [x \in Attrs |-> IF Kind[x] = "link" /\ o = 1 THEN 1 ELSE 0]]
-
-VARIABLES row, exists,          \* committed database
+VARIABLES kind,                 \* kind[x] of the attributes (fixed in the initial state)
+          row, exists,          \* committed database
           txrow, txexists,      \* working copy of the lock holder (= committed when nobody holds the lock)
           lockHolder, waiting,  \* provider.transaction_lock / FIFO of blocked acquirers
           mode, pc, result, pending,
@@ -86,8 +78,17 @@ VARIABLES row, exists,          \* committed database
           seen, collSeen, written, locked, applied,
           ev
 
+Kind == kind
+Tracked(x) == Kind[x] # "volatile"            \* has a bit in _bits_except_volatile_
+Optim(x)   == Kind[x] \in {"opt", "link"}     \* appears in optimistic criteria when read
+LinkAttrs  == {x \in Attrs : Kind[x] = "link"}
+HasLink    == LinkAttrs # {}
+LinkA      == CHOOSE x \in LinkAttrs : TRUE
+
+InitRowFor(k) == [o \in Objs |-> [x \in Attrs |-> IF k[x] = "link" /\ o = 1 THEN 1 ELSE 0]]
+
 dbvars   == <<row, exists, txrow, txexists, lockHolder, waiting>>
-sessvars == <<mode, pc, result, pending, status, dbval, val, rbits, wbits, notLoaded, forUpdate, collItems, collFull>>
+sessvars == <<kind, mode, pc, result, pending, status, dbval, val, rbits, wbits, notLoaded, forUpdate, collItems, collFull>>
 ghosts   == <<seen, collSeen, written, locked, applied>>
 vars     == <<dbvars, sessvars, ghosts, ev>>
 
@@ -221,8 +222,9 @@ Py(s, S, op) ==
 (* --------------------------------------- initial state --------------------------------------- *)
 NoEv == [s |-> 0, k |-> "init", o |-> 0, x |-> "-", m |-> "-", step |-> "init", out |-> "ok", why |-> "-", retv |-> 0, rets |-> {}]
 Init ==
-    /\ row = InitRow /\ exists = [o \in Objs |-> TRUE]
-    /\ txrow = InitRow /\ txexists = [o \in Objs |-> TRUE]
+    /\ kind \in [a : KA, b : KB]
+    /\ row = InitRowFor(kind) /\ exists = [o \in Objs |-> TRUE]
+    /\ txrow = row /\ txexists = [o \in Objs |-> TRUE]
     /\ lockHolder = 0 /\ waiting = <<>>
     /\ mode \in {f \in [Sessions -> Modes1 \cup ModesN] : \A s \in Sessions : f[s] \in ModesOf(s)}
     /\ pc = [s \in Sessions |-> 0]
@@ -274,7 +276,8 @@ Exec(s, op, how) ==
     \E dfail \in {gone \/ \E o \in T : ~DeliverOk(S1, o, D1.row[o])} :
     \E S2a \in {DeliverAll(S1, T, D1, op.k \in {"GFU", "QFU"})} :
     \E S2 \in {IF op.k \in {"RC", "LC"} THEN [S2a EXCEPT !.cf = TRUE] ELSE S2a} :
-    \E none \in {op.k \in {"R", "W", "D", "GFU"} /\ S2.st[op.o] = "none"} :      \* T.get(id=o) returned None
+    \* T.get(id=o) returned None / _find_in_db_ of get_for_update found no row (even if o is cached)
+    \E none \in {(op.k \in {"R", "W", "D"} /\ S2.st[op.o] = "none") \/ (op.k = "GFU" /\ HitsDb(S0, op) /\ ~D1.ex[op.o])} :
     \E S3 \in {IF none \/ ffail \/ dfail THEN S2 ELSE Py(s, S2, op)} :
     \E out \in {IF ffail THEN "optimistic_error" ELSE IF dfail THEN "unrepeatable_error"
                  ELSE IF none THEN "none" ELSE "ok"} :
@@ -291,7 +294,7 @@ Exec(s, op, how) ==
     \E newLocked \in {IF op.k \in {"GFU", "QFU"} \/ mode[s] = "ser" THEN live ELSE {}} :
     /\ ev' = [s |-> s, k |-> op.k, o |-> op.o, x |-> op.x, m |-> op.m, step |-> how, out |-> out,
               why |-> IF out = "unrepeatable_error" THEN (IF gone THEN "object_disappeared" ELSE Why(S1, T, D1)) ELSE "-", retv |-> retv, rets |-> rets]
-    /\ UNCHANGED mode
+    /\ UNCHANGED <<mode, kind>>
     /\ IF out \in {"optimistic_error", "unrepeatable_error"}
        THEN \* the exception leaves the db_session: rollback, lock released
             /\ EndSession(s, out, D0, FALSE, hold)
@@ -337,7 +340,7 @@ Step(s, op) ==
             /\ pending' = [pending EXCEPT ![s] = op]
             /\ ev' = [s |-> s, k |-> op.k, o |-> op.o, x |-> op.x, m |-> op.m, step |-> "run", out |-> "blocked",
                       why |-> "-", retv |-> 0, rets |-> {}]
-            /\ UNCHANGED <<row, exists, txrow, txexists, lockHolder, mode, result, status, dbval, val, rbits, wbits,
+            /\ UNCHANGED <<row, exists, txrow, txexists, lockHolder, mode, kind, result, status, dbval, val, rbits, wbits,
                            notLoaded, forUpdate, collItems, collFull, ghosts>>
        ELSE /\ Exec(s, op, "run")
             /\ UNCHANGED <<waiting, pending>>
